@@ -5,6 +5,17 @@ fn main() {
     let v: serde_json::Value = serde_json::from_str(&text).unwrap();
     let mut settings = TypeSpaceSettings::default();
     if args.iter().any(|a| a == "--builder") { settings.with_struct_builder(true); }
+    let mut i = 2;
+    while i + 1 < args.len() {
+        match args[i].as_str() {
+            "--type-mod" => { settings.with_type_mod(&args[i + 1]); }
+            "--derive" => { settings.with_derive(args[i + 1].clone()); }
+            "--patch" => { let (a, b) = args[i + 1].split_once('=').unwrap(); settings.with_patch(a, TypeSpacePatch::default().with_rename(b)); }
+            "--replace" => { let (a, b) = args[i + 1].split_once('=').unwrap(); settings.with_replacement(a, b, [].into_iter()); }
+            _ => {}
+        }
+        i += 1;
+    }
     let mut ts = TypeSpace::new(&settings);
     let r = std::panic::catch_unwind(std::panic::AssertUnwindSafe(|| {
         let root: schemars::schema::RootSchema = serde_json::from_value(v.clone()).unwrap();
@@ -14,6 +25,7 @@ fn main() {
                 println!("{}", ts.to_stream());
                 println!("FLAGS: serde_json={} uuid={} chrono={} regress={}", ts.uses_serde_json(), ts.uses_uuid(), ts.uses_chrono(), ts.uses_regress());
                 for t in ts.iter_types() {
+                    println!("IDENT {}", t.ident());
                     println!("TYPE {} : Display={} FromStr={} Default={} builder={}", t.name(), t.has_impl(TypeSpaceImpl::Display), t.has_impl(TypeSpaceImpl::FromStr), t.has_impl(TypeSpaceImpl::Default), t.builder().is_some());
                 }
             }
